@@ -1,5 +1,5 @@
 #!/usr/bin/env python3
-"""Applies every property-preserving refactoring (benign/*/benign*.diff) to /repo in turn, runs
+"""Applies every property-preserving refactoring (benign/**/benign*.diff) to /repo (or $VERIF_REPO) in turn, runs
 every quick check (via tools/run_benign.sh), expects exit 0 everywhere, restores /repo.
 Writes /verif/benign_report.json. A non-zero result is a false alarm of the machinery (or a diff
 that is not property-preserving after all): triage, never whitelist."""
@@ -14,5 +14,8 @@ for p in sorted(glob.glob("/verif/benign/**/benign*.diff", recursive=True)):
     allok &= ok
     rep.append({"benign": name, "exit": out.returncode, "alarms": alarms, "no_alarm": ok})
     print(name, "exit", out.returncode, alarms, flush=True)
+env = os.environ.get("VERIF_HOME")
+if env:
+    rep = {"run_in": "scratch worktree of /repo HEAD and scratch copy of /verif (tools/scratch_env.sh), so that it could run beside the seeded regression", "results": rep}
 json.dump(rep, open("/verif/benign_report.json", "w"), indent=1)
 sys.exit(0 if allok else 1)
